@@ -987,3 +987,25 @@ Definition batched_multi_wfb (t : table) (cs : list (handle * filter)) : bool :=
 Definition run_seq (h : handle) (t : table) (batching_on : bool) (ops : list op) : list event * list outcome :=
   (List.concat (map (fun o => fst (run h t (mk_ctx true batching_on) o)) ops),
    map (fun o => snd (run h t (mk_ctx true batching_on) o)) ops).
+
+(** * C10-fix-2: the batch function asks the row tester before it hands a row to a query
+
+    (proposed repair, patches/C10-fix-2.patch.)  The matcher's Go equality is coarser than SQL in places: a
+    pointer to "" equals the "" a NULL scans into, an empty []byte is hashed like a nil one.  The repaired
+    batch function builds the row tester of every query (Schema.MakeTester: both sides serialized by the
+    column's Valuer, compared by driverValuesEqual) and hands a row the matcher associates with a query to
+    that query only if its tester accepts the row.  driverValuesEqual on the driver values of this model
+    (nil, int64, float64, bool, []byte, string) is equality of kind and value: [dval_eqb]. *)
+Definition tester_test (t : table) (f : filter) (r : drow) : bool :=
+  forallb (fun c => match lookup (c_name c) f with
+                    | Some fv => dval_eqb (valuer (c_implicitnull c) fv)
+                                          (valuer (c_implicitnull c) (field_value (c_ty c) (cell r (c_name c))))
+                    | None => true
+                    end) (t_cols t).
+
+Definition matcher_matches_fixed (t : table) (f : filter) (r : drow) : bool :=
+  matcher_matches t f r && tester_test t f r.
+
+Definition batched_results_fixed (t : table) (fs : list filter) (contents : list drow) : list (list drow) :=
+  let fetched := select_rows (batch_wclause t fs) contents in
+  map (fun f => List.filter (matcher_matches_fixed t f) fetched) fs.
